@@ -123,7 +123,7 @@ PROPS = {
     'C17': dict(
         comps=['drop_once', ('mon_c06', ITERS), ('res', ITERS), ('drops', ITERS), ('ents', ['drain']), ('cur', ['drain']), ('keyset', ['drain']), 'ents_forget', 'cur_forget', 'keyset_forget', 'sizes_forget', 'max_forget', 'order_forget',
                ('mon_c07', ['drain']), ('mon_c02', ['drain']), ('mon_c01', ['drain']), ('bsim', ITERS), ('brefine', ITERS)], corr_only=['brefine'], bodies=['TakingIterator::', 'Drain::new'],
-        theorems=['C17_taking_run', 'C17_drain_forget', 'C17_into_iter_forget', 'C17_into_iter_pointer_level', 'C17_drop_pointer_level', 'C17_into_iter_no_fault'],
+        theorems=['C17_taking_run', 'C17_drain_forget', 'C17_into_iter_forget', 'C17_into_iter_pointer_level', 'C17_drop_pointer_level', 'C17_into_iter_no_fault', 'C17_leaked_drain_pointer_level'],
         assumptions=['mem::forget of Drain / IntoIter / IntoKeys / IntoValues after every generated prefix of next/next_back calls, followed by further use and drop of the cache; borrowing iterators own nothing, forgetting them is a no-op'],
     ),
     'C18': dict(engine='sig_check', level='translation_validation', comps=[],
